@@ -72,9 +72,27 @@ def is_definitive(fs):
     return True
 
 
-def discharge(ob, timeout_ms=20000):
+def discharge(ob, timeout_ms=20000, split_first=False):
     fs = ob.formula()
-    st, model, backend, secs = check_formulas(fs, timeout_ms)
+    g = ob.goal
+    split_first = split_first and z3.is_expr(g) and z3.is_and(g) and g.num_args() > 1 and any(z3.is_quantifier(c) for c in g.children())
+    if split_first:
+        st, model, backend, secs = "unknown", None, "z3", 0.0
+    else:
+        st, model, backend, secs = check_formulas(fs, timeout_ms)
+    if st == "unknown" and z3.is_expr(g) and z3.is_and(g) and g.num_args() > 1:
+        # a conjunction is proved conjunct by conjunct (same hypotheses): smaller queries, same meaning
+        st, model, backend = "discharged", None, "z3"
+        for c in g.children():
+            st_c, model_c, backend_c, secs_c = check_formulas(list(ob.pc) + [z3.Not(c)], timeout_ms)
+            secs += secs_c
+            if backend_c == "cvc5":
+                backend = "cvc5"
+            if st_c != "discharged":
+                st, model = st_c, model_c
+                fs = list(ob.pc) + [z3.Not(c)]
+                if st_c == "violated":
+                    break
     ob.status, ob.model, ob.backend, ob.time = st, model, backend, secs
     ob.definitive = (st != "violated") or is_definitive(fs) or getattr(ob, "concrete", False)
     return ob
